@@ -1,3 +1,4 @@
+pub mod comp;
 pub mod events;
 pub mod exec;
 pub mod gen;
